@@ -118,7 +118,7 @@ _UF = {}
 def uf(name, arity, rng=None):
     k = (name, arity, str(rng))
     if k not in _UF:
-        _UF[k] = z3.Function(name, *([_R] * arity + [rng or _R]))
+        _UF[k] = z3.Function(name, *([_R] * arity + [_R if rng is None else rng]))
     return _UF[k]
 
 
